@@ -191,12 +191,15 @@ def table() -> dict[str, Prop]:
     props["C01"].rules.append(GD.rule_guard)           # cap branch must consume its range (else: non-termination)
     from .rules import loop_rules as LP
     props["C01"].rules.append(LP.rule_loopvar)         # every while loop has a variant (no hang)
+    from .rules import bnd_rules as BN2
+    props["C01"].rules.append(BN2.rule_tokbnd)         # token / delimiter list subscripts are in range
     props["C20"].rules.append(LP.rule_loopvar)
     props["C03"].rules.append(TT.rule_unisplit)        # lines are split at LF only (no Unicode-aware splitlines on the source)
     props["C17"].rules.append(TT.rule_unisplit)
     props["C11"].rules.append(SW.rule_fanout)          # the same coherence through the facade
     props["C14"].rules.append(RR.rule_swallow)         # an exception from user code propagates
     props["C14"].rules.append(SW.rule_fanout)          # reset_rules restores all four rulers with enableOnly
+    props["C12"].rules.append(EF.rule_eff_config)      # creating / configuring one instance writes nothing shared
     props["C13"].rules.append(EF.rule_alias)           # class-level mutables are shared between concurrent parses too
     return props
 
